@@ -13,12 +13,14 @@ if not demos:
     print("no demo test file"); sys.exit(2)
 godirs = sorted({os.path.dirname(f) for f in subprocess.run(["git", "-C", "/repo", "ls-files", "*.go"], capture_output=True, text=True).stdout.split()}, key=len, reverse=True)
 pkgdir = meta.get("demo_package_dir") or meta.get("demo_dir") or meta.get("demo_package") or ""
-if pkgdir.strip("./") not in godirs:
+if not pkgdir.strip("./") or pkgdir.strip("./") not in godirs:
     text = json.dumps(meta)
     pkgdir = next((d for d in godirs if d and re.search(r"(?<![A-Za-z0-9_/])(\./)?" + re.escape(d) + r"/", text)), None)
+if not pkgdir and re.search(r"^package poly(_test)?\s*$", open(demos[0]).read(), flags=re.M):
+    pkgdir = "."
 if not pkgdir:
     print("cannot determine demo package dir"); sys.exit(2)
-pkgdir = pkgdir.strip("./")
+pkgdir = pkgdir.strip("./") or "."
 wt = tempfile.mkdtemp(prefix="seedwt.")
 os.rmdir(wt)
 subprocess.run(["git", "-C", "/repo", "worktree", "add", "--detach", wt, "HEAD"], check=True, capture_output=True)
